@@ -369,8 +369,15 @@ func (m *Model) runStmt(key string, idx int, sp *StmtProg, params []pgwire.Param
 			lastErr = res
 			o.ev = append(o.ev, fmt.Sprintf("op %d complete %s", oi, res))
 		case "empty":
+			if !closed && written > 0 {
+				// Empty() after rows were delivered: whatever it returns, it must not
+				// disturb the state machine (rows stay deliverable, completion still
+				// emits its CommandComplete)
+				o.ev = append(o.ev, fmt.Sprintf("op %d empty *", oi))
+				continue
+			}
 			if !closed {
-				// the property says nothing about Empty() before completion
+				// the property says nothing about Empty() on a writer without rows
 				o.loose = true
 				return o
 			}
@@ -585,7 +592,17 @@ func (m *Model) Step(st *MState, msgs []pgwire.FMsg, i int) []Branch {
 		e := expErrorCode("54000", "ERROR", "message too large")
 		if st.Phase == "discarding" {
 			n2 := st.clone()
-			return []Branch{{Next: st, Consumed: 1}, {Exp: []Exp{e}, Next: n2, Consumed: 1}}
+			bs := []Branch{{Next: st, Consumed: 1}, {Exp: []Exp{e}, Next: n2, Consumed: 1}}
+			if t == 'S' {
+				// an oversized Sync while discarding: whether it still counts as the
+				// Sync that ends the batch is not fixed by the properties
+				rd := st.clone()
+				rd.Phase = "ready"
+				zopt := expReady()
+				zopt.Opt = true
+				bs = append(bs, Branch{Exp: []Exp{e, zopt}, Next: rd, Consumed: 1})
+			}
+			return bs
 		}
 		switch {
 		case t == 'Q':
